@@ -417,9 +417,12 @@ def orChars (tbl : List (Nat × Nat)) : List Ch → Nat → Nat × Bool
     | none => (acc, false)
 
 /-- `ismode(start, end, &permset)`: the returned permset is what `*permset`
-holds afterwards (it is written even when the function rejects the field). -/
+holds afterwards (it is only written when the whole field is accepted). -/
 def ismode (wide : Bool) (b : List Ch) (permset : Nat) : Nat × Bool :=
-  if b = [] then (permset, false) else orChars (if wide then modeParseW else modeParse) b 0
+  if b = [] then (permset, false) else
+  match orChars (if wide then modeParseW else modeParse) b 0 with
+  | (p, true) => (p, true)
+  | (_, false) => (permset, false)
 
 def isNfs4Perms (wide : Bool) (b : List Ch) (permset : Nat) : Nat × Bool :=
   orChars (if wide then permParseW else permParse) b permset
